@@ -1,26 +1,93 @@
 import Driver.Util
 import AwsVerif.Model.HostUtils
-/-! Driver for the C04 model stage: `p ipv6 <hex>` → the line harness/parsers.c prints for the same op
-(both flag values; for the empty input also the NULL/0 view, which the model does not distinguish:
-`aws_host_utils_is_ipv6` returns before touching `host.ptr` when `host.len == 0`). -/
+import AwsVerif.Model.PercentDecode
+import AwsVerif.Model.Uuid
+/-! Driver for the C04 model stage: for every op it prints the lines harness/parsers.c prints for the same op.
+  p ipv6 <hex>                    aws_host_utils_is_ipv6, both flag values
+  p ipv4 <hex>                    aws_host_utils_is_ipv4
+  p uuid <hex>                    aws_uuid_init_from_str
+  p uuidstr <hex> pre=N slack=K   aws_uuid_to_str into a buffer of capacity N+K with len N, then parse the text back
+  p uridec <hex> pre=N cap=C show=1   aws_byte_buf_append_decoding_uri
+For the empty input the harness also runs the NULL/0 view; none of these functions dereferences a zero-length view, so
+the model prints the same verdict for both. -/
 namespace Driver.HostUtilsD
 open AwsVerif.HostUtils Driver
 
 def showB (b : Bool) : String := if b then "true" else "false"
 
-def line (variant : String) (inp : List UInt8) : String :=
+def opt (t : List String) (key : String) (dflt : String) : String :=
+  match t.find? (fun s => s.startsWith (key ++ "=")) with
+  | some s => (s.drop (key.length + 1)).toString
+  | none => dflt
+
+def ipv6Line (variant : String) (inp : List UInt8) : String :=
   match isIpv6 inp false, isIpv6 inp true with
   | .ok a, .ok b => s!"P ipv6 {variant} is_ipv6 {showB (a || b)} plain={showB a} encoded={showB b} chan=ok views=- canary=-"
   | .error (.oob o), _ => s!"P ipv6 {variant} is_ipv6 FAULT oob={o}"
   | _, .error (.oob o) => s!"P ipv6 {variant} is_ipv6 FAULT oob={o}"
 
+def ipv4Line (variant : String) (inp : List UInt8) : String :=
+  match isIpv4 inp with
+  | .ok r => s!"P ipv4 {variant} is_ipv4 {showB r.verdict} chan=ok views=- canary=-"
+  | .error (.oob o) => s!"P ipv4 {variant} is_ipv4 FAULT oob={o}"
+
+def uuidLine (variant : String) (inp : List UInt8) : String :=
+  match AwsVerif.Uuid.fromStr inp with
+  | .ok ⟨.ok bytes, _⟩ => s!"P uuid {variant} init_from_str OK v={hexOf bytes} chan=ok views=- canary=ok"
+  | .ok ⟨.error e, _⟩ => s!"P uuid {variant} init_from_str ERR {e.name} chan=ok views=- canary=ok"
+  | .error _ => s!"P uuid {variant} init_from_str FAULT"
+
+def pattern (n : Nat) : List UInt8 := (List.range n).map (fun i => UInt8.ofNat (0xA0 + i % 16))
+
+def uuidstrLine (variant : String) (inp : List UInt8) (pre slack : Nat) : String :=
+  let u := (inp ++ List.replicate 16 0).take 16
+  let cells := pattern pre ++ List.replicate slack 0xC5
+  match AwsVerif.Uuid.toStr u cells pre with
+  | .ok (.ok (cells', len')) =>
+    let txt := (cells'.drop pre).take (len' - pre)
+    let back := match AwsVerif.Uuid.fromStr txt with
+      | .ok ⟨.ok b, _⟩ => b == u
+      | _ => false
+    let intact := cells'.take pre == pattern pre
+    s!"P uuidstr {variant} to_str OK text={hexOf txt} roundtrip={if back then "same" else "DIFF"} chan=ok views=- canary={if intact then "ok" else "BAD:prefix-overwritten"}"
+  | .ok (.error e) => s!"P uuidstr {variant} to_str ERR {e.name} chan=ok views=- canary=ok"
+  | .error _ => s!"P uuidstr {variant} to_str FAULT"
+
+def uridecLine (variant : String) (inp : List UInt8) (pre cap : Nat) (showOut : Bool) : String :=
+  let cap := if cap < pre then pre else cap
+  let p := pattern pre
+  let fmt (cls : String) (out : List UInt8) : String :=
+    let dec := out.drop pre
+    s!"P uridec {variant} decode {cls} outlen={dec.length}" ++ (if showOut then s!" out={hexOf dec}" else "") ++
+      s!" chan=ok views=- canary={if out.take pre == p then "ok" else "BAD:prefix-overwritten"}"
+  match AwsVerif.PercentDecode.appendDecodingUri p cap inp with
+  | .ok (.ok out _) => fmt "OK" out
+  | .ok (.malformed out _) => fmt "ERR AWS_ERROR_MALFORMED_INPUT_STRING" out
+  | .ok .overflow => s!"P uridec {variant} decode ERR AWS_ERROR_OVERFLOW_DETECTED"
+  | .error _ => s!"P uridec {variant} decode FAULT"
+
+def both (inp : List UInt8) (f : String → String) (name : String) : List String :=
+  [f "blk"] ++ (if inp.isEmpty then [f "null"] else []) ++ ["E " ++ name]
+
 def step (s : Unit) (t : List String) : Unit × List String :=
   match t with
-  | ["p", "ipv6", h] =>
+  | "p" :: name :: h :: rest =>
     match parseHex? h with
-    | some inp =>
-      (s, [line "blk" inp] ++ (if inp.isEmpty then [line "null" inp] else []) ++ ["E ipv6"])
     | none => (s, ["bad-op"])
+    | some inp =>
+      match name with
+      | "ipv6" => (s, both inp (fun v => ipv6Line v inp) name)
+      | "ipv4" => (s, both inp (fun v => ipv4Line v inp) name)
+      | "uuid" => (s, both inp (fun v => uuidLine v inp) name)
+      | "uuidstr" =>
+        match (opt rest "pre" "0").toNat?, (opt rest "slack" "37").toNat? with
+        | some pre, some slack => (s, both inp (fun v => uuidstrLine v inp pre slack) name)
+        | _, _ => (s, ["bad-op"])
+      | "uridec" =>
+        match (opt rest "pre" "0").toNat?, (opt rest "cap" "0").toNat? with
+        | some pre, some cap => (s, both inp (fun v => uridecLine v inp pre cap (opt rest "show" "0" == "1")) name)
+        | _, _ => (s, ["bad-op"])
+      | _ => (s, ["bad-op"])
   | _ => (s, ["bad-op"])
 
 def component : Component := { σ := Unit, init := (), step := step }
